@@ -1,10 +1,10 @@
 (** Extraction of the C20 models (ExtrOcamlBasic only). *)
 From Coq Require Import ZArith List.
 From Coq Require Import ExtrOcamlBasic.
-From Webp Require Opts.OptsModel.
+From Webp Require Opts.OptsModel Opts.OptsAnim.
 
 Separate Extraction
   BinInt.Z.add BinInt.Z.mul BinInt.Z.sub BinInt.Z.opp BinInt.Z.div BinInt.Z.modulo
   BinInt.Z.eqb BinInt.Z.ltb BinInt.Z.leb BinInt.Z.of_nat BinInt.Z.to_nat BinInt.Z.of_N BinInt.Z.to_N
   OptsModel.effective OptsModel.encode_outcome OptsModel.options_for_preset OptsModel.default_options
-  OptsModel.validate.
+  OptsModel.validate OptsAnim.sanitize_keyframes OptsAnim.clamp_loop_count.
